@@ -1,3 +1,5 @@
+CONSTANTS
+  KStride = 4
 INIT Init
 NEXT Next
 INVARIANTS EInv ProjInv
